@@ -2,6 +2,7 @@ SPECIFICATION Spec
 CONSTANTS
   Mode = "enum"
   UseBindings = {"math", "json", "vmod", "vmod2"}
+  BlankBindings = {"math"}
   SitePatterns <- ThoroughPatterns
   SelShapes = {}
   KeepTrace = FALSE
